@@ -62,16 +62,29 @@ def cases(draw):
         edges += [[i, j] for j in ts]
     # the root may assign one attribute from its own rule and from the same-named rule of an import (-> OBJECT), and
     # the files may define different Comment rules (the root's applies)
-    return {"files": files, "edges": edges, "both": draw(st.booleans()), "comments": draw(st.booleans())}
+    return {"files": files, "edges": edges, "both": draw(st.booleans()), "comments": draw(st.booleans()),
+            "samename": draw(st.integers(0, 2)) == 0}
 
 
 def strategy(tier):
     return cases()
 
 
+def bare(case, i):
+    """file name without directory and extension: g<i>; with "samename" the first file that lives in a sub-directory takes
+    the name of the first root-level file other than the root grammar (same bare name in two directories)"""
+    if case.get("samename") and i != 0:
+        files = case["files"]
+        sub = next((k for k in range(1, len(files)) if files[k]["dir"]), None)
+        top = next((k for k in range(1, len(files)) if not files[k]["dir"]), None)
+        if sub is not None and top is not None and i == sub:
+            return f"g{top}"
+    return f"g{i}"
+
+
 def ns(case, i):
     d = case["files"][i]["dir"]
-    return ".".join([p for p in d.split("/") if p] + [f"g{i}"])
+    return ".".join([p for p in d.split("/") if p] + [bare(case, i)])
 
 
 def imports(case, i):
@@ -117,7 +130,7 @@ def rel_import(case, i, j):
     dj = [p for p in case["files"][j]["dir"].split("/") if p]
     if dj[:len(di)] != di:
         return None  # not below the importing file's directory: cannot be written
-    return ".".join(dj[len(di):] + [f"g{j}"])
+    return ".".join(dj[len(di):] + [bare(case, j)])
 
 
 def evaluate(case):
@@ -176,7 +189,7 @@ def evaluate(case):
         for i, t in texts.items():
             d = os.path.join(tmp, case["files"][i]["dir"])
             os.makedirs(d, exist_ok=True)
-            with open(os.path.join(d, f"g{i}.tx"), "w") as fh:
+            with open(os.path.join(d, bare(case, i) + ".tx"), "w") as fh:
                 fh.write(t)
         ctx = f"files={texts} edges={edges}"
         shadow = any(sum(1 for j in [i] + imports(case, i) if r in case["files"][j]["rules"]) >= 2
